@@ -303,3 +303,26 @@ class Guards:
 
     def zero(self, x):
         return self.eq(x, ("c", 0)) or any((not t) and e == x for e, t in self.truth)
+
+
+def ret_expr(fn, out):
+    """expression of the value returned on the path of outcome `out` (a phi in the return block is resolved through the
+    predecessor the path came from)"""
+    ret = out["inst"]
+    if "val" not in ret.d:
+        return None
+    e = vf.expr(fn, ret["val"])
+    for _ in range(4):
+        if e[0] != "phi":
+            break
+        tb = flow.trace_blocks(out["trace"])
+        phi = fn.insts[e[1]]
+        if phi.block.id not in tb:
+            break
+        k = len(tb) - 1 - tb[::-1].index(phi.block.id)
+        pred = tb[k - 1] if k > 0 else None
+        inc = [v for v, b in phi["inc"] if b == pred]
+        if len(inc) != 1:
+            break
+        e = vf.expr(fn, inc[0])
+    return e
